@@ -894,6 +894,30 @@ func TestPropMerge(t *testing.T) {
 			}
 			fillQuad(rt, uint32(x), uint32(y), k, &tiles)
 		}
+		// parts of the input at a very different position (round M, M4): at zoom >= 18
+		// (or 30) further quads k*2^j parent rows / columns away from the first block
+		spread := z >= 18 && rapid.IntRange(0, 2).Draw(rt, "spread") > 0
+		if rapid.IntRange(0, 19).Draw(rt, "z30") == 17 {
+			z, spread, tiles, topK = 30, true, nil, 0
+			tiles = append(tiles, quadTiles(uint32(rapid.IntRange(0, 1<<29-1).Draw(rt, "x30")), uint32(rapid.IntRange(0, 1<<29-1).Draw(rt, "y30")), rapid.IntRange(1, 15).Draw(rt, "m30"))...)
+		}
+		if spread && len(tiles) > 0 {
+			pn := uint32(1) << uint(z-1)
+			px, py := tiles[0][0]/2, tiles[0][1]/2
+			for i, n := 0, rapid.IntRange(1, 3).Draw(rt, "nspread"); i < n; i++ {
+				d := uint32(rapid.IntRange(1, 3).Draw(rt, "sk")) << uint(rapid.IntRange(0, z-2).Draw(rt, "sj"))
+				qx, qy := px, py
+				switch rapid.IntRange(0, 2).Draw(rt, "saxis") {
+				case 0:
+					qx = (px + d) % pn
+				case 1:
+					qy = (py + d) % pn
+				default:
+					qx, qy = (px+d)%pn, (py+d)%pn
+				}
+				tiles = append(tiles, quadTiles(qx, qy, rapid.IntRange(1, 15).Draw(rt, "smask"))...)
+			}
+		}
 		// a few scattered single tiles
 		for i, n := 0, rapid.IntRange(0, 4).Draw(rt, "scatter"); i < n; i++ {
 			lim := (1 << uint(z)) - 1
@@ -918,7 +942,11 @@ func TestPropMerge(t *testing.T) {
 		} else {
 			target = rapid.IntRange(0, z).Draw(rt, "target")
 		}
-		c := Case{Kind: "merge", Class: "merge/synthetic", Z: uint32(z), Target: uint32(target), Tiles: uniq}
+		class := "merge/synthetic"
+		if spread {
+			class = "merge/synthetic-spread"
+		}
+		c := Case{Kind: "merge", Class: class, Z: uint32(z), Target: uint32(target), Tiles: uniq}
 		var inf info
 		stats.Try(rt, "TestPropMerge", c, func() error {
 			var err error
